@@ -807,6 +807,13 @@ def rule_token_integrity(chk, prog, Pr, L):
             if hit:
                 continue
             nxt = b.succs if forward else [p_ for p_ in f.blocks if b in p_.succs]
+            if forward and site is not None and b is site.bb and site.op == "call" and b.term.op == "br" and len(b.term.x["succ"]) == 2:
+                # `if (print_name(...)) return -1;` -- where the printing call itself failed the listing is abandoned (the tool
+                # exits with an error): what follows the token is what follows on the side where the call answered 0
+                cnd = b.term.ops[0]
+                if cnd.is_inst and cnd.op == "icmp" and cnd.pred in ("eq", "ne") and strip_casts(cnd.ops[0]) is site and \
+                        cnd.ops[1].is_const and cnd.ops[1].is_int and cnd.ops[1].sval == 0:
+                    nxt = [b.term.x["succ"][0 if cnd.pred == "eq" else 1]]
             if (forward and b.term.op == "ret") or (not forward and b is f.blocks[0]):
                 if stop_at_exit:
                     out.add("none")
@@ -914,6 +921,123 @@ def rule_chunk_cut(chk, prog):
     return n
 
 
+def rule_every_entry(chk, prog):
+    """K1-everyentry: the listing has a line for every entry, whatever its attributes.  In the function that walks the tree
+    for --describe, a call that prints an entry's line is guarded only by what kind of entry it is (mode & S_IFMT, the
+    inode type), by the root's empty name, by the unpack-root option, by the verdict of the file name sanitiser and by
+    the results of the printing calls themselves.  A guard on anything else -- permission bits, owner, a helper that
+    looks at the node -- makes the round trip lose entries (or their attributes) for some inputs."""
+    f = prog.fn("describe_tree")
+    if f is None or f.decl:
+        chk.broke("describe_tree is not part of rdsquashfs")
+        return 0
+    f.build()
+    unit = f.unit
+    printers = set()
+    for g in unit.functions.values():
+        if g.decl:
+            continue
+        if any(norm_callee(c.callee) in ("fputs", "fputc", "printf", "putchar", "puts", "fwrite", "fprintf") for c in g.build().calls()):
+            printers.add(g)
+    changed = True
+    while changed:
+        changed = False
+        for g in unit.functions.values():
+            if g.decl or g in printers:
+                continue
+            if any(c.callee and prog.fn(c.callee, unit) in printers for c in g.calls()):
+                printers.add(g)
+                changed = True
+
+    def allowed(g, cond):
+        sl = [cond] + list(backward_slice(cond, phi_control=False, limit=200))
+        calls = [x for x in sl if x.is_inst and x.op == "call" and not (norm_callee(x.callee) or "").startswith("llvm.")]
+        for x in calls:
+            t = prog.fn(x.callee, g.unit) if x.callee else None
+            nm = norm_callee(x.callee) if x.callee else None
+            if t in printers or nm in ("is_filename_sane", "canonicalize_name"):
+                continue
+            return False, "the answer of %s()" % (nm or "an indirect call")
+        loads = [x for x in sl if x.is_inst and x.op == "load"]
+        for ld in loads:
+            q = strip_casts(ld.ops[0])
+            if not (q.is_inst and q.op == "getelementptr"):
+                continue
+            fs = q.fields()
+            if not fs:
+                continue
+            nm = fs[-1][1]
+            if nm in ("name", "children", "next", "inode", "parent", "type", "base", "extra"):
+                continue
+            if nm == "mode":
+                # only as the kind of entry: masked with S_IFMT
+                masked = any(x.is_inst and x.op == "and" and any(o.is_const and o.is_int and o.uval == 0o170000 for o in x.ops) and
+                             any(y is ld for y in [x.ops[0], x.ops[1]] + list(backward_slice(x, phi_control=False, limit=20)))
+                             for x in sl)
+                if masked:
+                    continue
+                return False, "the permission bits"
+            return False, "the member '%s'" % nm
+        return True, ""
+    n = 0
+    for g in sorted(printers, key=lambda x: x.name):
+        for c in g.calls():
+            t = prog.fn(c.callee, unit) if c.callee else None
+            if t not in printers or t is g and False:
+                continue
+            # a call that prints (part of) an entry's line, in the walker or one of its helpers
+            if g is not f and not any(cs.fn is f or cs.fn in printers for cs in prog.callers_of(g)):
+                continue
+            n += 1
+            chk.analysed(g)
+            bad = None
+            for cond, outcome, br in g.guards_at(c.bb):
+                ok, why = allowed(g, cond)
+                if not ok and _omits(prog, g, br, outcome, printers):
+                    bad = (br, why)
+                    break
+            inst = "%s:%s@%d" % (g.name, t.name, c.line)
+            if bad is None:
+                chk.ok("K1-everyentry", inst, c, "printed for every entry of its kind")
+            else:
+                chk.violation("K1-everyentry", inst, bad[0], "whether this part of the listing is printed depends on %s: entries that "
+                              "differ in nothing but that are left out of (or cut short in) the listing, and the rebuilt image "
+                              "lacks them or their attributes" % bad[1])
+    return n
+
+
+def _omits(prog, g, br, outcome, printers):
+    """on the other side of the branch the function can answer success without having printed anything more: the guard
+    decides about leaving something out, not about how to print it or about an error"""
+    if br.op != "br" or len(br.x["succ"]) != 2 or not isinstance(outcome, bool):
+        return True
+    other = br.x["succ"][1 if outcome else 0]
+    from ..errflow import ret_sources
+    zero = set()
+    for (v, b) in ret_sources(g):
+        w = strip_casts(v)
+        if not (w.is_const and w.is_int and w.sval != 0):
+            zero.add(b)
+    if g.ret == "void":
+        zero = {r.bb for r in g.rets()}
+    seen, st = set(), [other]
+    while st:
+        b = st.pop()
+        if b in seen:
+            continue
+        seen.add(b)
+        if any(i.op == "call" and i.callee and prog.fn(i.callee, g.unit) in printers for i in b.insts) or \
+                any(i.op == "call" and norm_callee(i.callee) in ("fputs", "fputc", "printf", "putchar", "puts", "fwrite") for i in b.insts):
+            continue
+        if b in zero or (b.term.op == "ret" and any(p_ in zero for p_ in [b])):
+            return True
+        # the block that feeds a `return 0` phi
+        if any(s_.term.op == "ret" and b in zero for s_ in b.succs):
+            return True
+        st.extend(b.succs)
+    return False
+
+
 def rule_type_twins(chk, prog):
     """K12-twins (sibling agreement): SquashFS inode types come in pairs, basic k and extended k+7, that describe the same
     kind of object.  A function that decides on the inode type and treats at least two pairs as pairs (both members named)
@@ -994,6 +1118,8 @@ def run(chk):
     chk.floor("K12-twins", 5)
     rule_chunk_cut(chk, pg)
     chk.floor("K10-chunkcut", 1)
+    rule_every_entry(chk, pr)
+    chk.floor("K1-everyentry", 6)
     chk.floor("A2-token", 3)
     chk.floor("A2-class", 6)
     chk.floor("A2-keyword", 6)
